@@ -96,11 +96,25 @@ def check_C09(tier: str, v: Verdict):
     recs = []
     n = 1500 if tier == "quick" else 20000
     for _ in range(n):
-        pred, ref = gen.rand_unmatched_pair(rng, max_vox=48)
         cfg = rand_cfg(rng, inputs=("UNM", "UNM", "SEM", "MAT"), matchers=("naive", "naive", "merge", "m2o"))
         sem = cfg["input"] == "SEM"
-        dt = rng.choice(UINTS + (SINTS if sem else []))
-        style = rng.choice(["small", "top", "wide", "mixed", "multiples", "multiples"])
+        wrap = None
+        if rng.random() < 0.15:
+            # an isolated overlapping pair whose two label values add up to exactly 2^bits of the
+            # target dtype (label arithmetic anywhere in the pipeline would wrap to background)
+            pred, ref, p_new, r_new = gen.far_block_pair(rng, joint=cfg["input"] != "UNM")
+            dt = rng.choice([np.uint8, np.uint16, np.uint32])
+            bits = np.iinfo(dt).bits
+            if cfg["input"] != "UNM":
+                wrap = (p_new, 2 ** (bits - 1), r_new, 2 ** (bits - 1))
+            else:
+                big = 2 ** bits - rng.randint(1, 60)
+                wrap = (p_new, big, r_new, 2 ** bits - big) if rng.random() < 0.5 else (p_new, 2 ** bits - big, r_new, big)
+            style = "small"
+        else:
+            pred, ref = gen.rand_unmatched_pair(rng, max_vox=48)
+            dt = rng.choice(UINTS + (SINTS if sem else []))
+            style = rng.choice(["small", "top", "wide", "mixed", "multiples", "multiples"])
         if dt in (np.int8,):
             style = "small"
         pl = [int(x) for x in np.unique(pred) if x]
@@ -115,6 +129,13 @@ def check_C09(tier: str, v: Verdict):
         else:
             fp = _injective_labels(rng, pl, dt, style)
             fr = _injective_labels(rng, rl, dt, rng.choice(["small", "top", "wide", "mixed", "multiples", "multiples"]) if dt != np.int8 else "small")
+        if wrap is not None:
+            # swap the wrapping values in (keeping the renaming injective)
+            for f, (old, val) in ((fp, wrap[:2]), (fr, wrap[2:])):
+                for k2 in [k2 for k2, x in f.items() if x == val and k2 != old]:
+                    f[k2] = f[old]
+                f[old] = val
+            style = "wrapsum"
         rec = rec_evaluate(pred, ref, cfg, meta={"gen": "random", "transform": f"rename-{style}", "dtype_b": str(np.dtype(dt))})
         pb, rb = _apply(fp, pred, dt), _apply(fr, ref, dt)
         outb, resb, exc = run_evaluate(pb, rb, cfg)
@@ -274,17 +295,29 @@ def check_C12(tier: str, v: Verdict):
     rng = random.Random(seed() * 7919 + 12)
     run_models(v, [("MC_Rel", "MC_Rel_groups.cfg")] + MODELS_QUICK)
     recs = []
-    parts = list(_partitions([1, 2, 3]))
+    parts_k = {k: list(_partitions(list(range(1, k + 1)))) for k in (3, 4, 5)}
     n = 250 if tier == "quick" else 3000
     for it in range(n):
-        part = parts[it % len(parts)]
+        # the label universe: {1,2,3} x scale, or 4-5 labels with arbitrary distinct values below 64
+        # (interleaved, non-contiguous, unsorted group definitions)
+        wide = rng.random() < 0.35
+        K = rng.choice([4, 5]) if wide else 3
+        parts = parts_k[K]
+        part = parts[it % len(parts)] if not wide else rng.choice(parts)
         # raw label values: small, or beyond the input dtype's range for some groups
-        scale = rng.choice([1, 1, 1, 40])
+        scale = rng.choice([1, 1, 1, 40]) if not wide else 1
+        raw = {b: b * scale for b in range(1, K + 1)}
+        if wide:
+            raw = dict(zip(range(1, K + 1), rng.sample(range(1, 64), K)))
         kinds, gdefs = {}, {}
         for bi, block in enumerate(part):
             kind = rng.choice(["plain", "plain", "merge"]) if len(block) > 1 else rng.choice(["plain", "merge", "single"])
+            if wide and len(block) > 2:
+                kind = rng.choice(["plain", "merge", "merge"])
             kinds[f"g{bi}"] = kind
-            gdefs[f"g{bi}"] = [b * scale for b in block]
+            gdefs[f"g{bi}"] = [raw[b] for b in block]
+            if wide:
+                rng.shuffle(gdefs[f"g{bi}"])
         groups = {}
         for name, labs in gdefs.items():
             if kinds[name] == "merge":
@@ -299,10 +332,13 @@ def check_C12(tier: str, v: Verdict):
         gall = sorted({x for labs in gdefs.values() for x in labs})
         shape = gen.pick_shape(rng, 48)
         def arr():
-            a = gen.rand_instances(rng, shape, rng.randint(1, 4))
+            a = gen.rand_instances(rng, shape, rng.randint(1, 4 if not wide else 6))
+            if wide:
+                lut = np.array([0] + [raw[b] for b in range(1, K + 1)])
+                return lut[(((a - 1) % K) + 1) * (a != 0)]
             return (((a - 1) % 3) + 1) * (a != 0) * scale
         pred, ref = arr(), arr()
-        undefined = rng.random() < 0.2
+        undefined = rng.random() < 0.2 and not wide
         if undefined:
             which = pred if rng.random() < 0.5 else ref
             if rng.random() < 0.5:
@@ -351,7 +387,7 @@ def check_C12(tier: str, v: Verdict):
                 attach_b(rec, "same", outb, resb, exc)
             recs.append(rec)
     _count_cov(v, recs, lambda r: _eval_key(r) + (tuple(r["glabels"]), r["gkind"], tuple(r["gall"])), lambda r: any(r["pred"]) or any(r["ref"]))
-    v.cov["rule"] = ("label-map pairs over labels {1,2,3}(x scale) x all partitions into <= 3 named groups x kinds (plain, merge, single-instance) "
+    v.cov["rule"] = ("label-map pairs over labels {1,2,3}(x scale) or 4-5 arbitrary labels below 64 x all partitions into <= 3 named groups x kinds (plain, merge, single-instance) "
                      "(+ an unused group, + inputs with a label of no group) x input types; per group: A = the group's reported result, validated "
                      "against the specification applied to the restricted arrays, B = the code's ungrouped evaluation of the restricted arrays; "
                      "distinct by (arrays, config, group definition)")
